@@ -125,7 +125,7 @@ func drawOut(rt *rapid.T, cmd string, envelopeCap bool) Out {
 	case "arbitrary":
 		o.Stdout, o.Recipe = rapid.SliceOfN(rapid.Byte(), 0, 400).Draw(rt, "stdout"), "arbitrary"
 	case "special":
-		s := rp.Pick(rt, "special", "", "null", "[]", "{}", `""`, "1e999999", "true", strings.Repeat("[", 100000), strings.Repeat(`{"a":`, 20000) + "1" + strings.Repeat("}", 20000),
+		s := rp.Pick(rt, "special", "", "null", "[]", "{}", `""`, "1e999999", "true", strings.Repeat("[", 100000), strings.Repeat(`{"a":`, 20000)+"1"+strings.Repeat("}", 20000),
 			`{"name":null}`, "\xef\xbb\xbf{}", "{}{}", "{}\n{}", `{"keyId":"key1","keySpec":"EC-256"}garbage`, strings.Repeat(" ", 500000)+"{}", `{"`+strings.Repeat("k", 300000)+`":1}`)
 		o.Stdout, o.Recipe = []byte(s), "special"
 	case "failure":
@@ -383,6 +383,12 @@ func signCalls(r *runner, c *PluginCase, ps *signer.PluginSigner, ctx context.Co
 			ok = err == nil && len(sig) > 0 && info != nil
 			_ = ps.PluginAnnotations()
 		})
+		if c.Mode == "inproc" { // the same answers through the top-level API (the scripted repository refuses the push)
+			r.call("notation.SignOCI", 0, func() {
+				_, _, err := notation.SignOCI(ctx, ps, &oneSigRepo{desc: desc}, notation.SignOptions{SignerSignOptions: opts, ArtifactReference: reference("digest")})
+				touchErr(err)
+			})
+		}
 	default:
 		gen := func(alg digest.Algorithm) (ocispec.Descriptor, error) {
 			if c.Target == "blob-descgen-error" || !alg.Available() {
@@ -395,6 +401,12 @@ func signCalls(r *runner, c *PluginCase, ps *signer.PluginSigner, ctx context.Co
 			touchErr(err)
 			ok = err == nil && len(sig) > 0 && info != nil
 		})
+		if c.Mode == "inproc" {
+			r.call("notation.SignBlob", 0, func() {
+				_, _, err := notation.SignBlob(ctx, ps, strings.NewReader(string(f.blob)), notation.SignBlobOptions{SignerSignOptions: opts, ContentMediaType: "application/octet-stream", UserMetadata: map[string]string{"k": "v"}})
+				touchErr(err)
+			})
+		}
 	}
 	return ok
 }
